@@ -13,6 +13,9 @@ From RV Require Import Base.QB Gen.GenPairing Model.Pairing Model.StepLaw Model.
   Proofs.C02_Table Proofs.C02_Lattice Proofs.C02_TableDraw Proofs.C02_InversionAdm Proofs.C02_Stateful Proofs.C02_Factory
   Proofs.C02_BstAdaptedNd Proofs.C02_Refuted.
 From RV Require Import Model.Domain Model.InversionFrontier Proofs.C02_InversionFrontier.
+From RV Require Gen.GenTieBst Proofs.Tie_Bst Gen.GenTieAlias Proofs.Tie_Alias.
+From RV Require Import Proofs.C02_GenTie.
+From RV Require Import Model.FrontierDraw Model.InversionFrontierNd Proofs.C14_FrontierDraw Proofs.C02_InversionFrontierNd.
 Import ListNotations.
 Open Scope Q_scope.
 
@@ -275,6 +278,100 @@ Example C02_inversion_frontier_nonvacuous :
   /\ zcount 5 (fr1d 3 3) = 1%nat /\ zcount 3 (fr1d 3 3) = 0%nat.
 Proof. exact inversion_frontier_nonvacuous. Qed.
 
+(* ---- wave 6 ---- *)
+
+(* TIE (harness/specs/TIE.py, harness/py2coq_loops.py): BinarySearchTree.sample_with_u is REGENERATED from
+   rpylib/distribution/variate/binarysearchtree.py on every run (Gen/GenTieBst.v: the `while ptr <= self.K` descent as a
+   fuelled py_while with fuel K + 1 and error value -1); the generated definition is equal to the hand model bst_sample that
+   C02_bst_law / C02_bst_range_nonzero / C02_factory_never_origin are about, for every K, array and uniform *)
+Theorem C02_gen_bst_sample_with_u_is_model : forall (k : nat) (bst : list Q) (u : Q),
+  GenTieBst.sample_with_u (Z.of_nat k) bst u = bst_sample k bst u.
+Proof. exact Tie_Bst.gen_sample_with_u_eq_model. Qed.
+(* ... hence the law of C02_bst_law holds for the GENERATED descent run on the array the constructor model builds *)
+Theorem C02_gen_bst_law : forall p : list Q, (1 <= length p)%nat -> nonneg p ->
+  exists b, create_bst p = Some b
+    /\ forall u, 0 <= u -> u < qsum p ->
+         locate 0 (bst_segs p) u = Some (GenTieBst.sample_with_u (Z.of_nat (length p - 1)) b u)
+         /\ (0 <= GenTieBst.sample_with_u (Z.of_nat (length p - 1)) b u < Z.of_nat (length p))%Z
+         /\ ~ nth (Z.to_nat (GenTieBst.sample_with_u (Z.of_nat (length p - 1)) b u)) p 0 == 0.
+Proof. exact gen_bst_law. Qed.
+(* non-vacuity: the generated loop computes, 4 states with a zero and a tie *)
+Example C02_gen_bst_nonvacuous :
+  map (GenTieBst.sample_with_u 3 [1 # 4; 1 # 4; 6 # 8; 1 # 4]) [0; 1 # 4; 1 # 2; 3 # 4] = [0; 2; 2; 3]%Z.
+Proof. vm_compute. reflexivity. Qed.
+
+(* TIE2: AliasMethod._draw_with_u is REGENERATED from rpylib/distribution/variate/alias.py (Gen/GenTieAlias.v; np.uint(ku) read as
+   Qfloor, numpy's truncation for ku >= 0; Python ints are Z) and equals the hand model alias_draw for every K, q, J and u >= 0 *)
+Theorem C02_gen_alias_draw_with_u_is_model : forall (K : nat) (q : list Q) (J : list nat) (u : Q), 0 <= u ->
+  GenTieAlias.draw_with_u (Z.of_nat K) q (map Z.of_nat J) u = Z.of_nat (alias_draw K q J u).
+Proof. exact Tie_Alias.gen_draw_with_u_eq_model. Qed.
+(* ... hence C02_alias_law holds for the GENERATED draw run on the tables the constructor model builds *)
+Theorem C02_gen_alias_law : forall p : list Q, (1 <= length p)%nat -> nonneg p -> qsum p == 1 ->
+  let K := length p in let J := fst (create_alias p) in let q := snd (create_alias p) in
+  let draw := GenTieAlias.draw_with_u (Z.of_nat K) q (map Z.of_nat J) in
+  (forall k, (k < K)%nat -> len_of (Z.of_nat k) (alias_segs K q J) == nth k p 0)
+  /\ (forall u, 0 <= u -> u < 1 -> locate 0 (alias_segs K q J) u = Some (draw u))
+  /\ (forall u, 0 <= u -> u < 1 -> (0 <= draw u < Z.of_nat K)%Z)
+  /\ (forall u k, 0 <= u -> u < 1 -> (k < K)%nat -> nth k p 0 == 0 -> draw u <> Z.of_nat k).
+Proof. exact gen_alias_law. Qed.
+(* non-vacuity: the generated draw on the tables of p = [1/4; 0; 1/2; 1/4] (a zero and a tie): state 1 is never returned *)
+Example C02_gen_alias_nonvacuous :
+  let p := [1 # 4; 0; 1 # 2; 1 # 4] in
+  map (GenTieAlias.draw_with_u 4 (snd (create_alias p)) (map Z.of_nat (fst (create_alias p)))) [0; 5 # 16; 1 # 2; 7 # 8; 63 # 64]
+  = [0; 3; 2; 2; 2]%Z.
+Proof. vm_compute. reflexivity. Qed.
+
+(* the n-d (d >= 2) INVERSION sampler of the factory: PairingToZd over nested Szudzik (sznd_project / sznd_pair), Boundary(),
+   the deque frnd = snd (dom_nd ..) and max_frontier_indices maxfnd = dom_maxf (dom_nd ..) of Model/Domain.v (C14), is_outside =
+   outside the box.  Every index of the deque is an ADMISSIBLE index of the enumeration (the hypothesis of part (5) of
+   C02_inversion_frontier_law, so far proved in 1-d only), the deque is not empty, and position c of the deque is the first or
+   the last point of a line of the box along the last axis: in the grid, never the origin.  (origin not on the edge of the
+   last axis: 0 < o < last_size - 1; C14_frontier_draw_factory is the C14 half) *)
+Theorem C02_inversion_frontier_nd : forall (all_sizes : list Z) (last_size o : Z),
+  all_sizes <> [] -> Forall (fun m => (0 < m)%Z) all_sizes -> (0 < o < last_size - 1)%Z ->
+  let sizes := all_sizes ++ [last_size] in let d := length sizes in
+  let proj := sznd_project d in let fr := frnd sizes o in
+  Forall (fun i => In i (G proj (outsidend sizes o) (maxfnd sizes o))) fr
+  /\ fr <> []
+  /\ (0 <= maxfnd sizes o)%Z
+  /\ (forall c, (c < length fr)%nat -> let s := frontier_state proj fr c in
+        length s = d /\ s <> repeat 0%Z d /\ outsidend sizes o s = false /\ draw_on_frontier all_sizes last_size o nobound s).
+Proof. exact frontier_nd. Qed.
+
+(* ... composed with the frontier law: for ANY probability table >= 0, any _max_storage >= 1, any reachable state (history), any
+   uniform u and any position c < len(deque) of np.random.choice, the draw returns a state s of the grid that is not the origin;
+   for u <= sigma it is the admissible state i of the right-closed step function (interval length = prob s); for u > sigma it is
+   EXACTLY project(deque[c]) -- not 'some member of the deque' -- and lies on the frontier *)
+Theorem C02_inversion_frontier_nd_law : forall (all_sizes : list Z) (last_size o : Z),
+  all_sizes <> [] -> Forall (fun m => (0 < m)%Z) all_sizes -> (0 < o < last_size - 1)%Z ->
+  let sizes := all_sizes ++ [last_size] in let d := length sizes in
+  let proj := sznd_project d in let fr := frnd sizes o in
+  let outside := outsidend sizes o in let F := maxfnd sizes o in
+  forall (prob : list Z -> Q) (M : Z), (forall s, 0 <= prob s) -> (1 <= M)%Z ->
+  let segs := adm_segs' proj outside F prob in
+  forall st, reachable proj outside F prob M st -> forall u c, (c < length fr)%nat ->
+    exists s, snd (inv_step_f proj outside F prob M fr st u c) = Some s
+      /\ length s = d /\ s <> repeat 0%Z d /\ outside s = false
+      /\ (u <= total segs -> exists i, locate_r 0 segs u = Some i /\ In i (G proj outside F) /\ s = proj i
+                                       /\ len_of i segs == prob s)
+      /\ (total segs < u -> s = frontier_state proj fr c /\ draw_on_frontier all_sizes last_size o nobound s).
+Proof. exact inversion_frontier_nd_law. Qed.
+
+(* non-vacuity: the real deque of a 5 x 5 grid (10 entries = first and last point of each of the 5 lines), its 24 admissible
+   indices, a 4 x 4 x 4 grid (32 entries), and a history with _max_storage = 3 that takes the frontier draw twice *)
+Example C02_inversion_frontier_nd_nonvacuous :
+  frnd [5; 5]%Z 2 = [14; 18; 9; 16; 8; 15; 10; 17; 22; 23]%Z
+  /\ maxfnd [5; 5]%Z 2 = 23%Z
+  /\ map (sznd_project 2) (frnd [5; 5]%Z 2) = [[2; 2]; [2; -2]; [1; 2]; [1; -2]; [0; 2]; [0; -2]; [-1; 2]; [-1; -2]; [-2; 2]; [-2; -2]]%Z
+  /\ length (G (sznd_project 2) (outsidend [5; 5]%Z 2) (maxfnd [5; 5]%Z 2)) = 24%nat
+  /\ length (frnd [4; 4; 4]%Z 1) = 32%nat
+  /\ (exists st, inv_init (sznd_project 2) (outsidend [5; 5]%Z 2) (maxfnd [5; 5]%Z 2) nd_ex_prob = Some st
+       /\ fst (inv_run_f (sznd_project 2) (outsidend [5; 5]%Z 2) (maxfnd [5; 5]%Z 2) nd_ex_prob 3 (frnd [5; 5]%Z 2) st
+                 [(1 # 4, 0%nat); (7 # 8, 3%nat); (3 # 4, 5%nat); (5 # 8, 9%nat); (4 # 5, 9%nat)])
+          = [Some [1; 0]; Some [1; -2]; Some [-2; 2]; Some [-2; 2]; Some [-2; -2]]%Z
+       /\ map (inv_uses_choice (sznd_project 2) (outsidend [5; 5]%Z 2) (maxfnd [5; 5]%Z 2) nd_ex_prob 3 st) [3 # 4; 7 # 8] = [false; true]).
+Proof. exact inversion_frontier_nd_nonvacuous. Qed.
+
 (* F-C02-6 (recorded finding, current tree): the right-closed samplers send u = 0 to the first enumerated state
    even when its probability is zero *)
 Theorem C02_inversion_zero_uniform_refuted :
@@ -334,6 +431,15 @@ Print Assumptions C02_inversion_frontier_law.
 Print Assumptions C02_inversion_frontier_1d.
 Print Assumptions C02_inversion_frontier_zero_prob_refuted.
 Print Assumptions C02_inversion_frontier_nonvacuous.
+Print Assumptions C02_gen_bst_sample_with_u_is_model.
+Print Assumptions C02_gen_bst_law.
+Print Assumptions C02_gen_bst_nonvacuous.
+Print Assumptions C02_gen_alias_draw_with_u_is_model.
+Print Assumptions C02_gen_alias_law.
+Print Assumptions C02_gen_alias_nonvacuous.
+Print Assumptions C02_inversion_frontier_nd.
+Print Assumptions C02_inversion_frontier_nd_law.
+Print Assumptions C02_inversion_frontier_nd_nonvacuous.
 Print Assumptions C02_inversion_zero_uniform_refuted.
 Print Assumptions C02_bstadapted1d_zero_uniform_refuted.
 Print Assumptions C02_inversion_overflow_orig.
